@@ -23,7 +23,13 @@ NOTES = [
     "control flow of Sandbox._execute depends on the termination only through (normal/raised/compile failure, "
     "isinstance Exception, isinstance SystemExit, does recording it raise) and on the two stack depths; CPython's "
     "try/except/else/finally and `with` semantics are the model's (planTry)",
-    "the handler ladder is read from the AST of Sandbox._execute; _start_mocking/_stop_mocking/_stop_patches/"
+    "the handler ladder is read from the AST of Sandbox._execute BY MEANING (sandboxexec_ladder.py: locals followed, "
+    "private helpers / local functions inlined, the non-threaded path selected by partial evaluation, an except "
+    "clause over a tuple of classes - inline, class / module constant, local - and an isinstance dispatch inside "
+    "`except BaseException` expanded into the equivalent sequence of clauses) and CROSS-CHECKED against the behaviour "
+    "of the real _execute measured on an instrumented sandbox (17 scenarios: normal / Exception / SystemExit / both / "
+    "neither / compile failure x recording succeeds / fails); a simple statement the reader cannot follow is taken "
+    "from the measurement, a disagreement or anything left over is Act.unknown; _start_mocking/_stop_mocking/_stop_patches/"
     "_reset_builtins, the tracer styles, ExpandedTraceback.line_number (4 crafted tracebacks) and the exception-object "
     "hazards (6 probe programs through run()) are PROBED on the tree under test and enter the theorems as tables",
     "EXCEPTION_FF_MAP lookup is by exact class, modelled by class NAME: generated programs never define a class "
